@@ -90,9 +90,10 @@ class Report:
                 new.append(v)
         infra = [r for r, fired in self.controls.items() if not fired]
         os.makedirs(os.path.join(VERIF, "evidence", "replay"), exist_ok=True)
-        replay = None
+        replay = os.path.join(VERIF, "evidence", "replay", "%s.json" % self.pid)
+        if not new and os.path.exists(replay):
+            os.unlink(replay)       # a replay file only exists for the violations of the latest run
         if new:
-            replay = os.path.join(VERIF, "evidence", "replay", "%s.json" % self.pid)
             with open(replay, "w") as f:
                 json.dump({"property": self.pid, "tier": self.tier, "violations": new}, f, indent=1)
         n_inst = len(self.instances)
